@@ -28,7 +28,7 @@
     [C01_accepts_iff_reference_says_yes] closes the loop: compiled command accepts <-> reference says Yes.
     NOT proved: the symbol-level statement for specs with "--" (crossing the atom re-reads the remaining
     tokens as positionals, which is not a function of the symbols), the ideal (non-greedy) reading of
-    groups (K2), the target (derivation) mode of the reference matcher used by C02. Covered on every
+    groups (K2). (The target — derivation — mode of the reference matcher used by C02 is proved in PC02.) Covered on every
     run: the implementation's verdict is compared with [r_match] on every claimed case. *)
 From MowCli Require Import Base Parser Nfa Matchers Apply Values Flow Cmd RefSem ApplyProofs TermProofs NfaProofs CompleteProofs PrepareProofs ThompsonProofs StructProofs.
 From MowCli Require Import Lexer View SymProofs RefProofs.
